@@ -374,15 +374,15 @@ pub fn replay_file(path: &str, quiet: bool) -> i32 {
     }
     let known = load_known();
     let mut code = 0;
-    for v in &out.violations {
-        if same_class(v, &rf.violation) {
-            if let Some(k) = known.matches(v) {
+    let mut printed = BTreeSet::new();
+    for v in out.violations.iter().filter(|v| same_class(v, &rf.violation)) {
+        if let Some(k) = known.matches(v) {
+            if printed.insert(k.id.clone()) {
                 println!("KNOWN-FINDING: property={} {} ({})", v.property, k.what, k.id);
-            } else {
-                println!("VIOLATION property={} replay={}", v.property, path);
-                code = 1;
             }
-            break;
+        } else if code == 0 {
+            println!("VIOLATION property={} replay={}", v.property, path);
+            code = 1;
         }
     }
     if code == 0 && !quiet && out.violations.iter().all(|v| !same_class(v, &rf.violation)) {
